@@ -405,3 +405,48 @@ def wt_in_soil_agreement(chk, prog, rule: str):
     else:
         chk.violation(rule, f"{fa.module}:{fa.qualname}", construct, f"daily {key(a)} vs initialisation {key(b)}: a table exactly at the surface (or at a compartment "
                       "centre) is inside the profile for one and outside for the other - compartments below it are then not saturated", loc=fa.loc())
+
+
+# --------------------------------------------------------------------------------------------- evaporation stage 1 / stage 2 extraction loops
+
+def evap_stage_agreement(chk, prog, rule: str):
+    """soil_evaporation extracts water compartment by compartment in two sibling loops (stage 1 from the readily evaporable layer, stage 2
+    from the expanding evaporation layer). After renaming the stage potential and the layer depth, the bodies must consist of the same
+    statements and tests - in particular the clamp `available water < 0 -> 0` for the compartment below the layer must be in both."""
+    import copy
+    se = prog.find_func("soil_evaporation")
+    chk.fn(se.key)
+    loops = [w for w in ast.walk(se.node) if isinstance(w, ast.While) and any(isinstance(x, ast.Name) and x.id == "AvW" for x in ast.walk(w))]
+    if len(loops) != 2:
+        raise AnalysisError(f"soil_evaporation: expected two compartment extraction loops, found {len(loops)}")
+    shapes = []
+    for w in loops:
+        # the stage potential: the name compared with 0 in the loop test; the layer depth: the name compared with prof.dzsum[comp]
+        pot = next((c.left.id for c in ast.walk(w.test) if isinstance(c, ast.Compare) and isinstance(c.left, ast.Name) and isinstance(c.comparators[0], ast.Constant)
+                    and c.comparators[0].value == 0), None)
+        depth = None
+        for c in ast.walk(w):
+            if isinstance(c, ast.Compare) and isinstance(c.left, ast.Subscript) and "dzsum" in ast.unparse(c.left) and isinstance(c.comparators[0], ast.Name):
+                depth = c.comparators[0].id
+        if pot is None or depth is None:
+            raise AnalysisError("soil_evaporation: cannot identify the stage potential / layer depth of an extraction loop")
+        class R(ast.NodeTransformer):
+            def visit_Name(self, n):
+                return ast.copy_location(ast.Name(id={pot: "POT", depth: "Z"}.get(n.id, n.id), ctx=n.ctx), n)
+        items = []
+        for st in ast.walk(w):
+            if isinstance(st, ast.If):
+                items.append("if " + ast.unparse(R().visit(copy.deepcopy(st.test))))
+            elif isinstance(st, ast.Assign):
+                items.append(ast.unparse(R().visit(copy.deepcopy(st))))
+        shapes.append(sorted(items))
+    a, b = shapes
+    only1 = [x for x in a if x not in b]
+    only2 = [x for x in b if x not in a]
+    where = f"{se.module}:{se.qualname}"
+    construct = "stage-1 vs stage-2 extraction loop bodies"
+    if not only1 and not only2:
+        chk.ok(rule, where, construct, f"{len(a)} statements / tests each, identical after renaming")
+    else:
+        chk.violation(rule, where, construct, f"the two extraction loops differ: only stage 1 has {only1}; only stage 2 has {only2} - e.g. without the clamp of negative "
+                      "available water the compartment below the evaporation layer gains water every sub-step", loc=se.loc(loops[1]))
